@@ -5,6 +5,11 @@ from . import routing_c18, classlaws
 def build(repo, tier, seed):
     syn = routing_c18.obligations(repo) + routing_c18.call_alias_obligations(repo)
     s2, und = routing_c18.trace_obligations(repo)
+    # members of a dataset class are evaluated by member.evaluate(options) - through the request wrapper - when it is instantiated (group DatasetClass:instance)
+    from . import datasetclass_c19
+    dc_vcs, dc_syn, dc_und = datasetclass_c19.build(repo)
+    s2 = s2 + [x for x in dc_syn if "every-evaluatable-member" in x["name"]]
+    und = und + dc_und
     import hashlib
     hashes = {"labrea/*.py": hashlib.sha256("".join(m.source for _, m in sorted(repo.modules.items())).encode()).hexdigest()[:16]}
 
